@@ -14,6 +14,9 @@
 (***************************************************************************)
 EXTENDS Integers, Sequences, FiniteSets, TLC
 
+\* VERIF_SEED: perturbs only the *values* of the generated tensors (T_Hash), never the structure of the generated cases
+CONSTANT ValSeed
+
 T_Max(a, b) == IF a > b THEN a ELSE b
 T_Min(a, b) == IF a < b THEN a ELSE b
 T_Abs(a) == IF a < 0 THEN -a ELSE a
@@ -244,7 +247,7 @@ T_IsSymmetric(t) == T_Equal(t, T_Transpose(t))
 (* Deterministic value palettes (seeded "pseudo-random" small integers)    *)
 (***************************************************************************)
 \* value in lo..hi from (seed, k); distinct neighbours so transposition slips show
-T_Hash(seed, k) == LET s == seed % 9973 IN (s * 7919 + k * 104729 + (k * k) * 31 + (s * k) * 17 + 11) % 1000003
+T_Hash(seed, k) == LET s == (seed + ValSeed * 131) % 9973 IN (s * 7919 + k * 104729 + (k * k) * 31 + (s * k) * 17 + 11) % 1000003
 T_Val(seed, k, lo, hi) == lo + (T_Hash(seed, k) % (hi - lo + 1))
 T_Fill(s, seed, lo, hi) == [shape |-> s, data |-> [k \in 1..T_Prod(s) |-> T_Val(seed, k, lo, hi)]]
 \* entries guaranteed non-zero (for divisors / positive diagonals): values in 1..hi
